@@ -1932,11 +1932,94 @@ def r05s(ck, prog):
                 top = d.c if top is None else min(top, d.c)
         if top is None:
             raise AnalysisBroken("R05s: zeroing bound and allocation size of msa_seq.gaps in %s are not comparable" % F.name)
+        # a re-allocation keeps the counters that were there: clearing must start right behind them.  The old count is
+        # (old alloc_len) + 1 by the allocation invariant above, where `old alloc_len` is a local that saved the field
+        # before it was increased
+        if any(c.callee == "realloc" for _, _, c in allocs3):
+            upd = [a for a, l, r in stores_to_field(F.body, "msa_seq", "alloc_len")]
+            for (var, lo, hi), a in his:
+                if var == "memset":
+                    lo_raw = None
+                    d0 = a.args[0].strip(casts=True)
+                    if d0.k == "BinaryOperator" and d0.d["op"] == "+":
+                        lo_raw = lin(d0.kids[1]) if d0.kids[0].strip(casts=True).k == "MemberExpr" else None
+                        if lo_raw is None:      # gaps + old_len + 1 parses as (gaps + old_len) + 1
+                            inner = d0.kids[0].strip(casts=True)
+                            if inner.k == "BinaryOperator" and inner.d["op"] == "+":
+                                x, y = lin(inner.kids[1]), lin(d0.kids[1])
+                                lo_raw = x.add(y) if x is not None and y is not None else None
+                else:
+                    loops = [x for x in a.ancestors() if x.k == "ForStmt"]
+                    rr = loop_range(loops[0]) if loops else None
+                    lo_raw = rr[1] if rr else None
+                if lo_raw is None or len(lo_raw.t) != 1 or list(lo_raw.t.values()) != [1]:
+                    raise AnalysisBroken("R05s: start of the clearing of re-allocated gaps in %s is not `saved length + constant`" % F.name)
+                vname = list(lo_raw.t)[0]
+                saved = [(d_, nd) for r_ in F.body.find("DeclRefExpr") if r_.d.get("name") == vname and r_.d.get("dk") == "Var"
+                         for d_, nd in local_defs(F, r_.d["did"])][:1]
+                ok_saved = bool(saved) and saved[0][0] is not None and saved[0][0].strip(casts=True).k == "MemberExpr" \
+                    and saved[0][0].strip(casts=True).d.get("field") == "alloc_len"
+                if ok_saved and upd:
+                    sp, up = F.cfg.position(saved[0][1]), F.cfg.position(upd[0])
+                    ok_saved = sp is not None and up is not None and F.cfg.reaches(sp, up) and not F.cfg.reaches(up, sp)
+                if not ok_saved:
+                    raise AnalysisBroken("R05s: %s in %s is not a copy of alloc_len taken before it is increased" % (vname, F.name))
+                ck.inst("R05s", site(prog, a, "gaps clear start"), "%s: clearing of the re-allocated counters starts at %s (old count = %s + 1)" % (F.name, lo_raw, vname), prog.config)
+                if lo_raw.c < 1:
+                    # clearing a slot of the old array is harmless exactly when that slot cannot have been used: slot alloc_len
+                    # is used only while len == alloc_len, which never holds between characters if every `len++` is followed
+                    # at once by `if (alloc_len == len) resize` (grow right after the store)
+                    lazy = _len_increments_without_growth(prog)
+                    if not lazy:
+                        ck.info("R05s", "%s clears from index %s (one slot of the old array): harmless, every len++ is followed at once by the "
+                                        "growth check, so slot alloc_len is never in use" % (F.name, lo_raw))
+                    else:
+                        G, inc = lazy[0]
+                        ck.violation("R05s", "R05s/%s/gaps-head" % F.name, site(prog, a, "gaps"),
+                                     "%s clears the re-allocated gap counters from index %s, but the old array held %s + 1 counters, and %s "
+                                     "(line %d) lets a sequence sit at len == alloc_len between characters: gaps counted into gaps[len] in that "
+                                     "state are wiped when the array grows" % (F.name, lo_raw, vname, G.name, inc.line), prog.config)
+                elif lo_raw.c > 1:
+                    ck.violation("R05s", "R05s/%s/gaps-hole" % F.name, site(prog, a, "gaps"),
+                                 "%s clears the re-allocated gap counters from index %s, but the old array held only %s + 1 counters: slot(s) in "
+                                 "between keep stale heap contents" % (F.name, lo_raw, vname), prog.config)
         if top > 0:
             ck.violation("R05s", "R05s/%s/gaps-tail" % F.name, where,
                          "%s allocates %s gap counters but zeroes %d fewer: the last slot(s) keep stale heap contents and are later "
                          "summed as gaps (the result depends on what earlier calls left on the heap)" % (F.name, es, top), prog.config)
     ck.floor("R05s", n, 3, "allocators of msa_seq.gaps")
+
+
+def _len_increments_without_growth(prog):
+    """[(function, node)] for every `X->len++` on an msa_seq that is not followed, as the next statement of its block, by
+    `if (X->alloc_len == X->len) resize_...`"""
+    out = []
+    for G in prog.lib_functions():
+        for u in G.body.find("UnaryOperator"):
+            if u.d["op"] != "++":
+                continue
+            t = u.kids[0].strip()
+            if not (t.k == "MemberExpr" and t.d.get("field") == "len" and t.d.get("rec") == "msa_seq"):
+                continue
+            blk = u.parent
+            while blk is not None and blk.k != "CompoundStmt":
+                blk = blk.parent
+            nxt = None
+            if blk is not None:
+                ks = blk.kids
+                for i, st in enumerate(ks):
+                    if st is u or u.within(st):
+                        nxt = ks[i + 1] if i + 1 < len(ks) else None
+                        break
+            ok = False
+            if nxt is not None and nxt.k == "IfStmt":
+                c = nxt.child("cond")
+                fields = {m.d.get("field") for m in c.find("MemberExpr")}
+                if {"alloc_len", "len"} <= fields and any((x.callee or "").startswith("resize_") for x in nxt.child("then").find("CallExpr")):
+                    ok = True
+            if not ok:
+                out.append((G, u))
+    return out
 
 
 # --------------------------------------------------------------------------- R05t
